@@ -206,7 +206,7 @@ func keysCase(c *mon.Case, mk string, hid byte) {
 	}
 
 	// ---------------- encryption side
-	emk, ke := genEncMaster(c, mk)
+	emk, ke := genEncMaster(c, mk, false)
 	if emk == nil {
 		return
 	}
